@@ -15,7 +15,9 @@ Line protocol of the C19 model.
   chain <spec|spec|…> <tokens>                               -> tokens with texts
       spec: lower=<c>o.o/c>o> | fold=<c>o.o/…> | rl=<n> | an | stop=<w/w> | stem=<t>u/…> | split=<t>p+q/…>
   snippet <M> <codes> <alnum> <f:t:s;…  s = score or n>      -> panic | ok <frag codes> <hl a,b,…> <html hex|panic>
+  chainfacet <spec|spec|…> <codes> <alnum>                   -> tokens of FacetTokenizer + chain
   collapse <a,b,a,b,…>                                       -> a,b,…
+  (`missing-param` = a parameter table of the request lacks a point the model needs)
 -/
 namespace TantivyModel.Driver.C19
 open TantivyModel TantivyModel.Proto TantivyModel.Tok TantivyModel.Snip
@@ -86,19 +88,26 @@ def parseMap {α β} (pk : String → Option α) (pv : String → Option β) (s 
 def lookup {α β} [BEq α] (m : List (α × β)) (k : α) : Option β :=
   (m.find? (fun e => e.1 == k)).map (·.2)
 
+/-- not a scalar value: stands for "the request did not supply this point of a parameter function"
+(`char::to_lowercase` of a non-ASCII scalar, the stem of a text); never defaulted silently -/
+def missingParam : Nat := 0x110000
+
+def showChain (ts : List Token) : String :=
+  if ts.any (fun t => t.text.contains missingParam) then "missing-param" else showTokens ts
+
 def parseFilter (spec : String) : Option Filter :=
   match spec.splitOn "=" with
   | ["an"] => some .alnumOnly
   | ["rl", n] => n.toNat?.map .removeLong
   | ["lower", m] =>
     (parseMap String.toNat? dotList m).map fun tab =>
-      .lower (fun c => if c < 128 then [asciiLower c] else (lookup tab c).getD [c])
+      .lower (fun c => if c < 128 then [asciiLower c] else (lookup tab c).getD [missingParam])
   | ["fold", m] =>
     (parseMap String.toNat? dotList m).map fun tab => .fold (fun c => lookup tab c)
   | ["stop", ws] =>
     (if ws == "" then some [] else (ws.splitOn "/").mapM dotList).map .stop
   | ["stem", m] =>
-    (parseMap dotList dotList m).map fun tab => .stem (fun t => (lookup tab t).getD t)
+    (parseMap dotList dotList m).map fun tab => .stem (fun t => (lookup tab t).getD [missingParam])
   | ["split", m] =>
     (parseMap dotList (fun v => (v.splitOn "+").mapM dotList) m).map fun tab =>
       .split (fun t => lookup tab t)
@@ -159,7 +168,11 @@ def handle : List String → String
     | none => "bad-op"
   | ["chain", specs, toks] =>
     match (specs.splitOn "|").mapM parseFilter, parseTokens toks with
-    | some fs, some ts => showTokens (applyChain fs ts)
+    | some fs, some ts => showChain (applyChain fs ts)
+    | _, _ => "bad-op"
+  | ["chainfacet", specs, c, a] =>
+    match (specs.splitOn "|").mapM parseFilter, parseText c a with
+    | some fs, some s => showChain (facetChain Gen.FACET_SEP_BYTE fs s)
     | _, _ => "bad-op"
   | ["snippet", m, c, a, toks] =>
     match m.toNat?, parseText c a, parseSToks toks with
